@@ -3,7 +3,7 @@
 # Applies the seeded patch to /repo, runs the check and undoes it.  If the patch no longer applies to /repo's HEAD
 # (a later fix: commit touched the same lines) it is tried on a scratch worktree of the pinned commit instead, and
 # the violations are compared with those of the pinned commit itself.
-D=$1; P=$2; T=${3:-quick}
+D=$(readlink -f $1); P=$2; T=${3:-quick}
 [ -f $D/patch.diff ] || { echo no patch; exit 2; }
 cd /verif
 if git -C /repo apply --check $D/patch.diff 2>/dev/null; then
